@@ -57,6 +57,22 @@ def run(chk):
         chk.violation({"kind": "eval", "expr": evalgen.render(e), "doc": d, "impl": impl[i].decode("utf-8", "replace"),
                        "model": mo.decode("utf-8", "replace") if isinstance(mo, bytes) else repr(mo)}, True,
                       "implementation and reference semantics (Model/Eval.v) disagree on %s" % evalgen.render(e))
+    # eval-all on the same single document must give the same results (binary operators work per input node in
+    # both drivers).  Top-level [..] is evaluated read-only by eval-all and writable by eval, so expressions with a
+    # collect are left out of this comparison.
+    ea_idx = [i for i, (e, d) in enumerate(cases) if "collect" not in evalgen.ops_of(e) and impl[i].startswith(b"OK")]
+    ea_req = [{"op": "eval", "expr": evalgen.render(cases[i][0]), "input": json.dumps(cases[i][1]), "in": "json", "out": "json", "indent": 0, "all": True} for i in ea_idx]
+    ea_out = [evalgen.canon_impl(r) for r in vlib.yqh_parallel(ea_req)]
+    nea = 0
+    for i, b in zip(ea_idx, ea_out):
+        if b != impl[i]:
+            nea += 1
+            if nea <= 3:
+                e, d = cases[i]
+                chk.violation({"kind": "evalall", "expr": evalgen.render(e), "doc": d, "impl": b.decode("utf-8", "replace"),
+                               "expect": impl[i].decode("utf-8", "replace")}, True,
+                              "eval-all on a single document differs from eval: " + evalgen.render(e))
+    chk.extra["evalall_vs_eval_cases"] = len(ea_idx)
     # recorded finding: `,` drops the RHS results when both operands return the context's own list
     w = vlib.yqh_batch([{"op": "eval", "expr": ". , .", "input": "2", "in": "json", "out": "json", "indent": 0}])[0]
     if evalgen.canon_impl(w) == b"OK\nI1:2\n":
@@ -72,5 +88,8 @@ def run(chk):
 
 def replay(rp):
     import vlib
+    if rp.get("kind") == "evalall":
+        r = vlib.yqh_batch([{"op": "eval", "expr": rp["expr"], "input": json.dumps(rp["doc"]), "in": "json", "out": "json", "indent": 0, "all": True}])[0]
+        return evalgen.canon_impl(r).decode("utf-8", "replace") == rp.get("expect")
     r = vlib.yqh_batch([{"op": "eval", "expr": rp["expr"], "input": json.dumps(rp["doc"]), "in": "json", "out": "json", "indent": 0}])[0]
     return evalgen.canon_impl(r).decode("utf-8", "replace") == rp.get("model")
